@@ -22,7 +22,8 @@ VARIABLES offered,   \* every leaf offered so far: [kind, lvl, ok]
 vars == <<offered, leaves, stack, tbl, root, state>>
 
 Max(x, y) == IF x > y THEN x ELSE y
-Limit == IF MaxLevel > 0 THEN MaxLevel ELSE 255
+(* a configured maximum above 255 does not lift the format's limit: levels are one octet (the code then finds out in the join, not in its pre-check) *)
+Limit == IF MaxLevel > 0 /\ MaxLevel < 255 THEN MaxLevel ELSE 255
 
 Init == /\ offered = <<>> /\ leaves = <<>> /\ stack = [k \in 1..Slots |-> None] /\ tbl = {} /\ root = None /\ state = "open"
 
